@@ -29,6 +29,19 @@ static void check_buffer(const unsigned char *data, size_t n, const std::vector<
     // every fixed-size read that leaves the n bytes faults on the guard page.
     ref::Decoded d = ref::decode((const unsigned char *)p, n, true);   // strict reference
     if(d.ok) count("accepted.strictly_wellformed"); else count("accepted.reference_rejects");
+    // A fixed buffer receives message after message; the very first argument read from the new message is the
+    // one behind the last argument read from its predecessor (no other accessor call in between).  Compared
+    // below with what a fresh front-to-back reading of the same bytes gives.
+    static char *arena = (char *)calloc(1, 8192);
+    static size_t arena_last = 0;
+    bool probed = false; size_t probe = 0; char probe_t = 0; rtosc_arg_t probe_a;
+    memset(&probe_a, 0, sizeof probe_a);
+    if(n + 8 <= 8192) {
+        memcpy(arena, data, n);
+        memset(arena + n, 0, 8);
+        unsigned na0 = rtosc_narguments(arena);
+        if(na0 >= 2 && na0 <= n) { probe = (arena_last + 1) % na0; probe_t = rtosc_type(arena, probe); probe_a = rtosc_argument(arena, probe); probed = true; count("accessor.reused_buffer_probe"); }
+    }
     const char *as = rtosc_argument_string(p);
     if(!inside(as, 1, p, n) || strnlen(as, p + n - as) == (size_t)(p + n - as)) { fail("argument_string_bounds", tags, g_desc, "outside / unterminated", "inside buffer"); return; }
     if(d.ok && d.types != as) { fail("argument_string_value", tags, g_desc, vis(as, strlen(as)), vis(d.types)); return; }
@@ -118,31 +131,21 @@ static void check_buffer(const unsigned char *data, size_t n, const std::vector<
         }
         free(hb);
     }
-    // ... and whatever message stood at the same address before: a fixed buffer receives message after message,
-    // the first argument read is the one behind the last argument read from its predecessor
-    if(na >= 2 && n + 8 <= 8192) {
-        static char *arena = (char *)calloc(1, 8192);
-        static size_t prev_last = 0;
-        memcpy(arena, data, n);
-        memset(arena + n, 0, 8);
-        size_t probe = (prev_last + 1) % na;
-        for(int step = 0; step < 2; ++step) {
-            char t = rtosc_type(arena, probe);
-            rtosc_arg_t a = rtosc_argument(arena, probe);
-            bool same = t == first[probe].first;
-            if(same) switch(t) {
-                case 's': case 'S': same = a.s - arena == first[probe].second.s - p; break;
-                case 'b': same = (const char *)a.b.data - arena == (const char *)first[probe].second.b.data - p && a.b.len == first[probe].second.b.len; break;
-                case 'h': case 't': case 'd': same = !memcmp(&a.t, &first[probe].second.t, 8); break;
-                case 'i': case 'c': case 'r': case 'f': case 'm': same = !memcmp(&a.i, &first[probe].second.i, 4); break;
-                default: break;
-            }
-            count("accessor.reused_buffer_probe");
-            if(!same) { fail("by_index_history_dependent", tags, g_desc, fmt("arg %zu read first from a buffer that held another message before differs from a fresh reading", probe), "the same value whatever the buffer held before"); break; }
-            prev_last = probe;
-            probe = (size_t)(hash_bytes(data, n) % na);     // the next message's first read follows this one
+    // ... and whatever message stood at the same address before (probe taken above)
+    if(probed && probe < na) {
+        char t = probe_t; const rtosc_arg_t &a = probe_a;
+        bool same = t == first[probe].first;
+        if(same) switch(t) {
+            case 's': case 'S': same = a.s - arena == first[probe].second.s - p; break;
+            case 'b': same = (const char *)a.b.data - arena == (const char *)first[probe].second.b.data - p && a.b.len == first[probe].second.b.len; break;
+            case 'h': case 't': case 'd': same = !memcmp(&a.t, &first[probe].second.t, 8); break;
+            case 'i': case 'c': case 'r': case 'f': case 'm': same = !memcmp(&a.i, &first[probe].second.i, 4); break;
+            default: break;
         }
+        if(!same) fail("by_index_history_dependent", tags, g_desc, fmt("arg %zu read first from a buffer that held another message before differs from a fresh reading", probe), "the same value whatever the buffer held before");
     }
+    // last accessor call of this case: one argument of the copy in the fixed buffer
+    if(na >= 1 && n + 8 <= 8192) { arena_last = (size_t)(hash_bytes(data, n) % na); (void)rtosc_argument(arena, arena_last); }
     if(na) count("accepted.with_args");
 }
 
